@@ -551,10 +551,10 @@ pub fn enumerate_c19(_thorough: bool, part: usize, parts: usize, sink: &mut crat
                 // number the enumeration yields is taken as N (it must be without repetition, start with e,
                 // and agree with the compilations below)
                 let n_min = word.len() + 2;
-                let items: Vec<usize> = m.iter_derivatives(e).take(4 * n_min + 10).map(|r| r as *const _ as usize).collect();
+                let items: Vec<usize> = m.iter_derivatives(e).take(16 * n_min + 10).map(|r| r as *const _ as usize).collect();
                 let distinct: HashSet<usize> = items.iter().copied().collect();
                 let n = items.len();
-                if n < n_min || n > 4 * n_min || distinct.len() != n || items.first() != Some(&(e as *const _ as usize)) {
+                if n < n_min || n > 16 * n_min || distinct.len() != n || items.first() != Some(&(e as *const _ as usize)) {
                     fails.push(("C19/closure-size".into(), format!("{}: iter_derivatives yields {} items, {} distinct; the expression has at least {} pairwise different derivatives", what, items.len(), distinct.len(), n_min)));
                     return fails;
                 }
